@@ -824,7 +824,7 @@ def create_advi(joint, variational, parameters, arg):
     return advi_dic
 
 
-def create_logger(id_, parameters, arg):
+def create_logger(id_, parameters, arg, has_prior=True):
     if arg.stem:
         file_name = arg.stem + '-samples.csv'
     else:
@@ -832,7 +832,7 @@ def create_logger(id_, parameters, arg):
 
     parameters2 = list(filter(lambda x: 'tree.ratios' != x, parameters))
     models = ['joint', 'like']
-    if not arg.poisson:
+    if has_prior:
         models.append('prior')
     if arg.coalescent:
         models.append('coalescent')
@@ -856,7 +856,7 @@ def create_logger(id_, parameters, arg):
     }
 
 
-def create_sampler(id_, var_id, parameters, arg):
+def create_sampler(id_, var_id, parameters, arg, has_prior=True):
     if arg.stem:
         file_name = arg.stem + '-samples.csv'
         tree_file_name = arg.stem + '-samples.trees'
@@ -866,7 +866,7 @@ def create_sampler(id_, var_id, parameters, arg):
 
     parameters2 = list(filter(lambda x: 'tree.ratios' != x, parameters))
     models = ['joint.jacobian', 'joint', 'like']
-    if not arg.poisson:
+    if has_prior:
         models.append('prior')
     models.append(var_id)
 
@@ -1052,11 +1052,18 @@ def build_advi(arg):
         else:
             parameters.append("sitemodel.pinv")
 
+    # the joint holds a `prior` only when the model has at least one prior distribution
+    has_prior = any(
+        isinstance(d, dict) and d.get('id') == 'prior'
+        for d in joint_dic['distributions']
+    )
     if arg.samples > 0:
-        json_list.append(create_sampler('sampler', 'variational', parameters, arg))
+        json_list.append(
+            create_sampler('sampler', 'variational', parameters, arg, has_prior)
+        )
 
     if arg.samples == 0 and arg.iter == 0:
-        json_list.append(create_logger('logger', parameters, arg))
+        json_list.append(create_logger('logger', parameters, arg, has_prior))
 
     for plugin in PLUGIN_MANAGER.plugins():
         plugin.process_all(arg, json_list)
